@@ -533,3 +533,26 @@ fn del_to_delay_ms(del: u8) -> u32 {
         _ => region::constants::RECEIVE_DELAY1,
     }
 }
+
+#[cfg(feature = "verif-hooks")]
+impl Mac {
+    pub(crate) fn verif_snapshot(&self) -> crate::verif::VerifSnapshot {
+        let (join_state, session) = match &self.state {
+            State::Unjoined => (0, None),
+            State::Otaa(_) => (1, None),
+            State::Joined(s) => (2, Some(s.verif_snapshot())),
+        };
+        crate::verif::VerifSnapshot {
+            data_rate: self.configuration.data_rate as u8,
+            tx_power: self.configuration.tx_power,
+            rx1_dr_offset: self.configuration.rx1_dr_offset,
+            rx2_data_rate: self.configuration.rx2_data_rate.map(|d| d as u8),
+            rx2_frequency: self.configuration.rx2_frequency,
+            rx1_delay: self.configuration.rx1_delay,
+            adr_enabled: self.configuration.adr_enabled,
+            plan: self.region.verif_plan(),
+            join_state,
+            session,
+        }
+    }
+}
